@@ -693,6 +693,8 @@ func (w *pfWorld) step(st *pfStep) M {
 		out["body"] = bs
 	case strings.Contains(bs, "<title>Error</title>"):
 		out["body"] = "error-page"
+		hs, _ := htmlStructure(bs)
+		out["htmlStructure"] = hs
 	case strings.HasPrefix(strings.TrimSpace(bs), "{"):
 		out["body"] = "json:" + bs
 	case len(bs) == 0:
